@@ -141,7 +141,7 @@ def run(ctx):
             ef = scan.edge_fact(bid, i)
             if ef and ef[1] is False and is_var('edge_deps_loaded')(ef[2]) and s is not None:
                 n += 1
-                r = scan.find_path(None, lambda x: x['k'] == 'ret' and const_value(x.get('e')) == 1, from_succ=s,
+                r = scan.find_path(None, lambda x: x['k'] == 'ret' and const_value(x.get('e')) == 1, from_succ=s, init_facts=[(ef[0], ef[1])],
                                    is_blocker=lambda x: (x['k'] == 'call' and x.get('name') == 'ImplicitDepLoader::LoadDeps') or
                                    (x['k'] == 'asg' and mentions_field(x['l'], 'Edge::deps_missing_') and const_value(x.get('r')) == 1) or
                                    (x['k'] == 'ret' and const_value(x.get('e')) != 1))
